@@ -113,7 +113,58 @@ def rule_c(ctx, cone):
         ctx.check(found, rid, "%s:cell=index-1" % nm, "%s addresses cell (index - 1): indices 1..=SLOTS map onto cells 0..SLOTS-1" % nm, m.span, None)
 
 
+def _snap_sources(m, exprs):
+    """which snapshots of the queue word does a value depend on: the initial load and/or the value handed back by a failed CAS"""
+    d = deps(m, exprs, follow=lambda x: "sync::atomic::Atomic::<" not in x)
+    out = set()
+    for x in d:
+        if x[0] == "call":
+            df = m.term(x[1]).get("def") or ""
+            if re.search(r"atomic::Atomic::<\w+>::(load|compare_exchange|compare_exchange_weak|swap|fetch_\w+)$", df):
+                out.add((x[1], df.split("::")[-1]))
+    return out
+
+
+def rule_e(ctx):
+    F = ctx.F
+    rid = "C08.e"
+    ctx.rule(rid, "CAS-loop coherence: in the take/give primitives the value returned (the taken index) and the new queue word are computed from "
+                  "the very snapshot the successful compare_exchange compared against, on every iteration (no stale head after a retry)", floor=3)
+    send = method(F, "send", SIGINFO)
+    words, cells = roles(F)
+    prims = {}
+    for (bb, t, c, w) in word_calls(F, send, words):
+        prims[c.id] = c
+    recv = method(F, "recv", SIGINFO)
+    for b in [recv] + [i for i in F.inst if i.kind == "closure" and i.name.startswith(recv.name + "::{closure")]:
+        for (bb, t, c, w) in word_calls(F, b, words):
+            prims[c.id] = c
+    if len(prims) < 2:
+        raise AnchorLost("take/give primitives of the channel")
+    from ..atomics import sites
+    for c in prims.values():
+        ctx.fn(c)
+        fl = flow(c)
+        cas = [s1 for s1 in sites(F, c) if s1.op.startswith("compare_exchange")]
+        for s1 in cas:
+            exp = _snap_sources(c, fl.term_arg(s1.bb, 1))
+            new = _snap_sources(c, fl.term_arg(s1.bb, 2))
+            nm = keyname(c.name).split("::")[-1]
+            ctx.check(exp and exp <= new, rid, "%s:new-from-expected" % nm, "%s: the new queue word is computed from the snapshot used as the CAS's expected value" % nm, s1.sp,
+                      {"expected_from": sorted(exp), "new_from": sorted(new)})
+            # returned payload (take primitive)
+            if "core::option::Option<u16>" in c.local_ty(0):
+                somes = [(bb, si, st) for bb, bl in enumerate(c.blocks) for si, st in enumerate(bl["s"]) if st["k"] == "assign" and st["r"]["k"] == "aggregate"
+                         and st["r"].get("def") == "core::option::Option" and st["r"]["variant"] == "Some"]
+                for (bb, si, st) in somes:
+                    v = _snap_sources(c, fl.operand(st["r"]["ops"][0], (bb, si)))
+                    ctx.check(v == exp, rid, "%s:returned-from-expected" % nm, "%s: the returned index is read from the same snapshot the successful CAS replaced" % nm, st["sp"],
+                              {"returned_from": sorted(v), "cas_expected_from": sorted(exp),
+                               "why": "after a failed CAS the head may have been taken by a nested/concurrent operation; returning the old head hands one index to two owners"})
+
+
 def run(ctx):
+    ctx.guarded("C08.e", rule_e)
     cone = ctx.guarded("C08.a", rule_a)
     if cone:
         ctx.guarded("C08.b", rule_b, cone)
